@@ -169,9 +169,6 @@ theorem checksum_seed_congr (b : List UInt8) {s t : Nat} (h : Rep s t) : checksu
 
 /-! ### 16-bit fields at even offsets: read, overwrite, incremental update -/
 
-/-- Overwrite the 16-bit big-endian field at byte offset `off`. -/
-def set16 (b : List UInt8) (off v : Nat) : List UInt8 := b.take off ++ put16 v ++ b.drop (off + 2)
-
 theorem put16_length (v : Nat) : (put16 v).length = 2 := rfl
 
 theorem set16_length (b : List UInt8) (off v : Nat) (h : off + 2 ≤ b.length) :
